@@ -8,7 +8,7 @@
    (single clock: always both), the user's push/pop requests, and -- at coincident edges of
    the dual-clock FIFO -- which of the two possible values each synchroniser captures. *)
 From Coq Require Import NArith List Bool Arith.
-From Gatery Require Import FifoDefs FifoGray FifoProofs FifoTxDefs FifoTxProofs.
+From Gatery Require Import FifoDefs FifoGray FifoProofs FifoTxDefs FifoTxProofs FifoStrmDefs FifoStrmProofs.
 Import ListNotations.
 Open Scope N_scope.
 
@@ -92,7 +92,45 @@ Theorem txfifo_refines_checkpoint_queue : forall c evs,
 Proof. exact txfifo_refines_checkpoint_queue_proof. Qed.
 Print Assumptions txfifo_refines_checkpoint_queue.
 
+(* strm::fifo (scl/stream/streamFifo.h, FifoStrmDefs.v), single clock.  ft = true is the
+   FALL-THROUGH mode (FifoLatency(0)): the wrapper bypasses the inner FIFO while it reports
+   empty.  At the stream interface (enter: valid(in) & ready(in); leave: valid(out) &
+   ready(out)) it is a bounded queue in which a beat may leave in the cycle it enters --
+   for every depth and schedule, for every latency when ft = false, and for ft = true under
+   the side condition that the inner FIFO's write-to-empty latency is 1.  checks/C15.py
+   verifies on every run that this is the latency the implementation really selects. *)
+Theorem strm_fifo_refines_queue : forall c ft ins, cfg_ok c -> c_dual c = false ->
+  (ft = true -> c_lat c = 1%nat) ->
+  sq_spec (depth c) [] (fst (strm_run c ft (init c) ins)).
+Proof. exact strm_fifo_refines_queue_proof. Qed.
+Print Assumptions strm_fifo_refines_queue.
+
+Theorem strm_fifo_in_order : forall c ft ins, cfg_ok c -> c_dual c = false ->
+  (ft = true -> c_lat c = 1%nat) ->
+  let tr := fst (strm_run c ft (init c) ins) in
+  s_delivered tr ++ map Some (sq_after [] tr) = map Some (s_accepted tr).
+Proof. exact strm_fifo_in_order_proof. Qed.
+Print Assumptions strm_fifo_in_order.
+
+(* the side condition is necessary: fall-through on an inner FIFO of latency 2 (depth 128):
+   beat 1 enters the empty FIFO while the consumer stalls, beat 2 arrives in the next cycle
+   with the consumer ready and overtakes it (delivered: 2, 1) *)
+Theorem strm_fallthrough_latency2_refuted :
+  cfg_ok ft_bad_cfg /\ c_dual ft_bad_cfg = false /\ c_lat ft_bad_cfg = 2%nat /\
+  ~ sq_spec (depth ft_bad_cfg) [] (fst (strm_run ft_bad_cfg true (init ft_bad_cfg) ft_bad_ins)).
+Proof. exact strm_fallthrough_latency2_refuted_proof. Qed.
+Print Assumptions strm_fallthrough_latency2_refuted.
+
 (* ---------------- non-vacuity ---------------- *)
+(* the same schedule on a latency-1 inner FIFO (what strm::fifo builds): in order, and a
+   beat offered to an empty FIFO with a ready consumer leaves in the same cycle *)
+Example ex_fallthrough_latency1 :
+  let c := mkCfg 7 1 false 0 0 in
+  let tr := fst (strm_run c true (init c) (ft_bad_ins ++ [mkSin true 3 true])) in
+  s_accepted tr = [1; 2; 3] /\ s_delivered tr = [Some 1; Some 2; Some 3] /\
+  map (fun oi => so_valid (fst oi)) tr = [false; true; true; true; false; false; true].
+Proof. vm_compute. repeat split. Qed.
+
 Definition te (pr : bool) (d : N) (cm : bool) (cut : N) (rb po pcm prb : bool) := mkTev pr d cm cut rb po pcm prb.
 Definition tx_c := mkCfg 2 1 false 0 0.
 Definition tx_evs :=
